@@ -1,5 +1,5 @@
 //! C07 — iterative lookups are exhaustive (Kademlia closure), judged from the lookup's own trace.
-use super::c11::{order, N};
+use super::c11::{order, secure, N};
 use super::net::*;
 use crate::report::Report;
 use crate::rng::{mix, Rng};
@@ -70,6 +70,106 @@ fn dedup_sorted(mut v: Vec<N>, t: &[u8; 20]) -> Vec<N> {
     v.sort_by(|a, b| order(a, b, t).then(a.1.cmp(&b.1)));
     v.dedup();
     v
+}
+
+/// The three rules of the statement, evaluated on one finished lookup.
+#[allow(clippy::too_many_arguments)]
+fn judge(r: &mut Report, case: &dyn Fn() -> Value, kind: Kind, target: [u8; 20], table: &[N], signed_table: &[N], returned: &Option<Vec<N>>, lt: &LookupTrace, big: bool, key: u64) {
+    if lt.queried.is_empty() {
+        // served from cache (put right after a lookup of the same target) - nothing to judge
+        r.count("lookups_without_requests");
+        return;
+    }
+    // (3) no address queried twice
+    // (two requests to one address in the same tick - two entries sharing an address, first seen
+    // together - are outside the statement: it forbids re-querying after an answer or a timeout)
+    let seen: HashSet<SocketAddrV4> = lt.queried.iter().copied().collect();
+    let mut first_sent: HashMap<SocketAddrV4, u64> = HashMap::new();
+    for (a, t) in lt.queried.iter().zip(lt.queried_at.iter()) {
+        let e = first_sent.entry(*a).or_insert(*t);
+        if *t > *e {
+            r.violation("lookup/address-queried-again", "the same lookup queried an address again at a later time", case(), json!({"address": a.to_string(), "first_ns": *e, "again_ns": *t}));
+            break;
+        }
+    }
+    // (1) closure over everything that answered or was listed
+    let entries = dedup_sorted(lt.answerers.iter().chain(lt.listed.iter()).copied().collect(), &target);
+    // same-IP admission rules of the accumulator cannot bind: one IP per node in these networks
+    let top: Vec<&N> = entries.iter().take(20).collect();
+    // Entries sharing an IP with another entry may legitimately be refused by the accumulator's
+    // per-IP Sybil rule (insertion-order dependent), so only unique-IP entries are demanded;
+    // ranks are taken in the full list, which can only make the demand weaker, never stronger.
+    let seeds: Vec<N> = dedup_sorted(table.iter().chain(signed_table.iter()).copied().collect(), &target);
+    let ip_count = |n: &N| entries.iter().filter(|o| o.1.ip() == n.1.ip()).count() + seeds.iter().filter(|o| o.1.ip() == n.1.ip() && !entries.contains(o)).count();
+    let missing: Vec<&&N> = top.iter().filter(|n| ip_count(n) == 1 && !seen.contains(&n.1)).collect();
+    if !missing.is_empty() {
+        r.violation(
+            "lookup/closure-missed-top20-entry",
+            "one of the 20 closest entries (among answerers and listed nodes) was never queried",
+            case(),
+            json!({"missing": missing.iter().map(|n| show(n)).collect::<Vec<_>>(), "top20": top.iter().map(|n| show(n)).collect::<Vec<_>>(), "queried": lt.queried.len(), "rounds": lt.rounds}),
+        );
+    }
+    // (2) reported / written-to nodes
+    match kind {
+        Kind::FindNode => {
+            let got = returned.clone().unwrap_or_default();
+            // nodes cached from an earlier lookup of the same target also seed the lookup; they are not
+            // visible to the harness unless they made it into the result, so the result's own entries
+            // count as candidates (a stale identity of a re-keyed node can come in this way and then
+            // shares its address with the current one)
+            let cands = dedup_sorted(table.iter().chain(signed_table.iter()).chain(lt.listed.iter()).chain(got.iter()).copied().collect(), &target);
+            // ids are unique per node here, so (secure, xor) is a total order
+            // the accumulator admits at most one insecure / one secure-per-prefix entry per IP, in
+            // insertion order: when candidates share an IP only the order-independent part is judged
+            let mut ips = HashSet::new();
+            let shared_ip = cands.iter().any(|c| !ips.insert(*c.1.ip()));
+            let want: Vec<N> = cands.iter().copied().take(20).collect();
+            if shared_ip {
+                let sorted_ok = got.windows(2).all(|w| order(&w[0], &w[1], &target) != std::cmp::Ordering::Greater);
+                let subset_ok = got.iter().all(|g| cands.contains(g));
+                let unique_missing: Vec<&N> = want.iter().filter(|c| cands.iter().filter(|o| o.1.ip() == c.1.ip()).count() == 1 && !got.contains(c)).collect();
+                if !sorted_ok || !subset_ok || !unique_missing.is_empty() || got.len() > 20 {
+                    r.violation("find_node/shared-ip/inconsistent", "find_node result is unsorted, invents a node, exceeds 20 or omits a top-20 candidate with a unique IP", case(), json!({"got": got.iter().map(show).collect::<Vec<_>>(), "want": want.iter().map(show).collect::<Vec<_>>() }));
+                }
+                r.count("find_node_shared_ip_cases");
+            } else if got != want {
+                let sorted_ok = got.windows(2).all(|w| order(&w[0], &w[1], &target) != std::cmp::Ordering::Greater);
+                let sig = if !sorted_ok { "find_node/out-of-order" } else if got.len() < want.len() { "find_node/too-few" } else { "find_node/not-the-closest" };
+                r.violation(sig, "find_node did not return exactly the 20 closest known entries in order", case(), json!({"got": got.iter().map(show).collect::<Vec<_>>(), "want": want.iter().map(show).collect::<Vec<_>>() }));
+            }
+        }
+        Kind::GetClosest => {
+            let got = returned.clone().unwrap_or_default();
+            let resp = dedup_sorted(lt.responders.clone(), &target);
+            if got.len() > resp.len() || got[..] != resp[..got.len()] {
+                r.violation("get_closest_nodes/not-a-prefix-of-responders", "get_closest_nodes is not a prefix of the token-bearing answerers in (secure, XOR) order", case(), json!({"got": got.iter().map(show).collect::<Vec<_>>(), "responders": resp.iter().map(show).collect::<Vec<_>>() }));
+            } else if got.len() < resp.len().min(20) {
+                r.violation("get_closest_nodes/too-few", "get_closest_nodes returned fewer than min(20, responders)", case(), json!({"got": got.len(), "responders": resp.len()}));
+            }
+        }
+        Kind::PutImmutable => {
+            let resp = dedup_sorted(lt.responders.clone(), &target);
+            let wrote: HashSet<SocketAddrV4> = lt.put_targets.iter().copied().collect();
+            let k = wrote.len();
+            let prefix: HashSet<SocketAddrV4> = resp.iter().take(k).map(|n| n.1).collect();
+            if wrote != prefix {
+                r.violation("put/write-set-not-closest-responders", "the write went to a set that is not the closest responders", case(), json!({"wrote": wrote.iter().map(|a| a.to_string()).collect::<Vec<_>>(), "closest_responders": resp.iter().take(k).map(show).collect::<Vec<_>>() }));
+            } else if k < resp.len().min(20) {
+                r.violation("put/write-set-too-small", "the write went to fewer than min(20, responders) nodes", case(), json!({"wrote": k, "responders": resp.len()}));
+            }
+        }
+        Kind::GetPeers => {}
+    }
+    r.count(&format!("lookups/{kind:?}"));
+    r.add("requests_of_lookups", lt.queried.len() as u64);
+    if big || lt.rounds >= 2 {
+        r.nontrivial(key);
+        r.count("multi_round_or_large");
+    }
+    if r.want_sample() && lt.rounds >= 2 {
+        r.sample(json!({"case": case(), "requests": lt.queried.len(), "send_rounds": lt.rounds, "answerers": lt.answerers.len(), "listed_nodes": lt.listed.len(), "top3": entries.iter().take(3).map(show).collect::<Vec<_>>() }));
+    }
 }
 
 pub struct Params {
@@ -160,101 +260,7 @@ pub fn scenario(r: &mut Report, p: &Params) {
             }
             let _ = delivers;
         }
-        if lt.queried.is_empty() {
-            // served from cache (put right after a lookup of the same target) - nothing to judge
-            r.count("lookups_without_requests");
-            continue;
-        }
-        // (3) no address queried twice
-        // (two requests to one address in the same tick - two entries sharing an address, first seen
-        // together - are outside the statement: it forbids re-querying after an answer or a timeout)
-        let seen: HashSet<SocketAddrV4> = lt.queried.iter().copied().collect();
-        let mut first_sent: HashMap<SocketAddrV4, u64> = HashMap::new();
-        for (a, t) in lt.queried.iter().zip(lt.queried_at.iter()) {
-            let e = first_sent.entry(*a).or_insert(*t);
-            if *t > *e {
-                r.violation("lookup/address-queried-again", "the same lookup queried an address again at a later time", case(), json!({"address": a.to_string(), "first_ns": *e, "again_ns": *t}));
-                break;
-            }
-        }
-        // (1) closure over everything that answered or was listed
-        let entries = dedup_sorted(lt.answerers.iter().chain(lt.listed.iter()).copied().collect(), &target);
-        // same-IP admission rules of the accumulator cannot bind: one IP per node in these networks
-        let top: Vec<&N> = entries.iter().take(20).collect();
-        // Entries sharing an IP with another entry may legitimately be refused by the accumulator's
-        // per-IP Sybil rule (insertion-order dependent), so only unique-IP entries are demanded;
-        // ranks are taken in the full list, which can only make the demand weaker, never stronger.
-        let seeds: Vec<N> = dedup_sorted(table.iter().chain(signed_table.iter()).copied().collect(), &target);
-        let ip_count = |n: &N| entries.iter().filter(|o| o.1.ip() == n.1.ip()).count() + seeds.iter().filter(|o| o.1.ip() == n.1.ip() && !entries.contains(o)).count();
-        let missing: Vec<&&N> = top.iter().filter(|n| ip_count(n) == 1 && !seen.contains(&n.1)).collect();
-        if !missing.is_empty() {
-            r.violation(
-                "lookup/closure-missed-top20-entry",
-                "one of the 20 closest entries (among answerers and listed nodes) was never queried",
-                case(),
-                json!({"missing": missing.iter().map(|n| show(n)).collect::<Vec<_>>(), "top20": top.iter().map(|n| show(n)).collect::<Vec<_>>(), "queried": lt.queried.len(), "rounds": lt.rounds}),
-            );
-        }
-        // (2) reported / written-to nodes
-        match kind {
-            Kind::FindNode => {
-                let got = returned.clone().unwrap_or_default();
-                // nodes cached from an earlier lookup of the same target also seed the lookup; they are not
-                // visible to the harness unless they made it into the result, so the result's own entries
-                // count as candidates (a stale identity of a re-keyed node can come in this way and then
-                // shares its address with the current one)
-                let cands = dedup_sorted(table.iter().chain(signed_table.iter()).chain(lt.listed.iter()).chain(got.iter()).copied().collect(), &target);
-                // ids are unique per node here, so (secure, xor) is a total order
-                // the accumulator admits at most one insecure / one secure-per-prefix entry per IP, in
-                // insertion order: when candidates share an IP only the order-independent part is judged
-                let mut ips = HashSet::new();
-                let shared_ip = cands.iter().any(|c| !ips.insert(*c.1.ip()));
-                let want: Vec<N> = cands.iter().copied().take(20).collect();
-                if shared_ip {
-                    let sorted_ok = got.windows(2).all(|w| order(&w[0], &w[1], &target) != std::cmp::Ordering::Greater);
-                    let subset_ok = got.iter().all(|g| cands.contains(g));
-                    let unique_missing: Vec<&N> = want.iter().filter(|c| cands.iter().filter(|o| o.1.ip() == c.1.ip()).count() == 1 && !got.contains(c)).collect();
-                    if !sorted_ok || !subset_ok || !unique_missing.is_empty() || got.len() > 20 {
-                        r.violation("find_node/shared-ip/inconsistent", "find_node result is unsorted, invents a node, exceeds 20 or omits a top-20 candidate with a unique IP", case(), json!({"got": got.iter().map(show).collect::<Vec<_>>(), "want": want.iter().map(show).collect::<Vec<_>>() }));
-                    }
-                    r.count("find_node_shared_ip_cases");
-                } else if got != want {
-                    let sorted_ok = got.windows(2).all(|w| order(&w[0], &w[1], &target) != std::cmp::Ordering::Greater);
-                    let sig = if !sorted_ok { "find_node/out-of-order" } else if got.len() < want.len() { "find_node/too-few" } else { "find_node/not-the-closest" };
-                    r.violation(sig, "find_node did not return exactly the 20 closest known entries in order", case(), json!({"got": got.iter().map(show).collect::<Vec<_>>(), "want": want.iter().map(show).collect::<Vec<_>>() }));
-                }
-            }
-            Kind::GetClosest => {
-                let got = returned.clone().unwrap_or_default();
-                let resp = dedup_sorted(lt.responders.clone(), &target);
-                if got.len() > resp.len() || got[..] != resp[..got.len()] {
-                    r.violation("get_closest_nodes/not-a-prefix-of-responders", "get_closest_nodes is not a prefix of the token-bearing answerers in (secure, XOR) order", case(), json!({"got": got.iter().map(show).collect::<Vec<_>>(), "responders": resp.iter().map(show).collect::<Vec<_>>() }));
-                } else if got.len() < resp.len().min(20) {
-                    r.violation("get_closest_nodes/too-few", "get_closest_nodes returned fewer than min(20, responders)", case(), json!({"got": got.len(), "responders": resp.len()}));
-                }
-            }
-            Kind::PutImmutable => {
-                let resp = dedup_sorted(lt.responders.clone(), &target);
-                let wrote: HashSet<SocketAddrV4> = lt.put_targets.iter().copied().collect();
-                let k = wrote.len();
-                let prefix: HashSet<SocketAddrV4> = resp.iter().take(k).map(|n| n.1).collect();
-                if wrote != prefix {
-                    r.violation("put/write-set-not-closest-responders", "the write went to a set that is not the closest responders", case(), json!({"wrote": wrote.iter().map(|a| a.to_string()).collect::<Vec<_>>(), "closest_responders": resp.iter().take(k).map(show).collect::<Vec<_>>() }));
-                } else if k < resp.len().min(20) {
-                    r.violation("put/write-set-too-small", "the write went to fewer than min(20, responders) nodes", case(), json!({"wrote": k, "responders": resp.len()}));
-                }
-            }
-            Kind::GetPeers => {}
-        }
-        r.count(&format!("lookups/{kind:?}"));
-        r.add("requests_of_lookups", lt.queried.len() as u64);
-        if p.servers > 20 || lt.rounds >= 2 {
-            r.nontrivial(mix(mix(p.seed, li as u64), w.order_hash()));
-            r.count("multi_round_or_large");
-        }
-        if r.want_sample() && lt.rounds >= 2 {
-            r.sample(json!({"case": case(), "requests": lt.queried.len(), "send_rounds": lt.rounds, "answerers": lt.answerers.len(), "listed_nodes": lt.listed.len(), "top3": entries.iter().take(3).map(show).collect::<Vec<_>>() }));
-        }
+        judge(r, &case, kind, target, &table, &signed_table, &returned, &lt, p.servers > 20, mix(mix(p.seed, li as u64), w.order_hash()));
     }
     if w.stuck() {
         r.inconclusive("scheduler watchdog fired");
@@ -267,11 +273,195 @@ pub fn scenario(r: &mut Report, p: &Params) {
     }
 }
 
+/// A real origin node among scripted raw endpoints whose ids, addresses, "known nodes" and values the
+/// harness chooses: id assignments that real nodes never draw (ids that differ from the target and from each
+/// other only in their last bytes, BEP42-secure ids mixed with insecure ones, all-private addresses), sparse
+/// and hostile referral graphs (a closer node known to a single responder, value holders listing nodes nobody
+/// else lists, duplicates, 8 or 20 nodes per answer), random arrival order.
+pub fn scripted(r: &mut Report, seed: u64) {
+    use crate::bencode::B;
+    use crate::krpc::*;
+    let mut rng = Rng::new(seed);
+    let w = World::with_cfg(seed, NetCfg::default(), TraceLevel::Off);
+    let n = 6 + rng.usize(55);
+    let plan = rng.usize(4);
+    let value = rng.blob(4, 30);
+    let center = crate::sha1::immutable_target(&value);
+    let mut ends: Vec<N> = vec![];
+    for i in 0..n {
+        let ip = if plan == 3 { Ipv4Addr::new(10, 7, (i / 200) as u8, 1 + (i % 200) as u8) } else { Ipv4Addr::new(60 + (i % 40) as u8, 1 + (i / 40) as u8, rng.usize(250) as u8, 1 + rng.usize(250) as u8) };
+        let clustered = |rng: &mut Rng| {
+            let mut id = center;
+            let k = 1 + rng.usize(4);
+            for b in id.iter_mut().skip(20 - k) {
+                *b = rng.u32() as u8;
+            }
+            id
+        };
+        let id = match plan {
+            0 => rng.array(),
+            1 | 3 => clustered(&mut rng),
+            _ => {
+                if rng.bool() {
+                    {
+                    let filler = if rng.bool() { center } else { rng.array() };
+                    crate::crc32c::bep42_mint(ip, rng.u32() as u8, filler)
+                }
+                } else if rng.bool() {
+                    clustered(&mut rng)
+                } else {
+                    rng.array()
+                }
+            }
+        };
+        if ends.iter().any(|e| e.0 == id) {
+            continue;
+        }
+        ends.push((id, SocketAddrV4::new(ip, 6881)));
+    }
+    let n = ends.len();
+    // referral graph: a chain guarantees reachability, plus random extra knowledge
+    let mut knows: Vec<Vec<usize>> = vec![vec![]; n];
+    for i in 0..n {
+        knows[i].push((i + 1) % n);
+        let cap = if rng.bool() { 4 } else { 25 };
+        let extra = rng.usize(cap);
+        for _ in 0..extra {
+            let j = rng.usize(n);
+            if j != i && !knows[i].contains(&j) {
+                knows[i].push(j);
+            }
+        }
+    }
+    let holders: Vec<bool> = (0..n).map(|_| rng.chance(1, 4)).collect();
+    let per_answer = if rng.bool() { 8 } else { 20 };
+    let hostile_order = rng.chance(1, 3);
+    let socks: Vec<SockId> = ends.iter().map(|e| w.raw(e.1)).collect();
+    {
+        let (ends, knows, holders, socks) = (ends.clone(), knows.clone(), holders.clone(), socks.clone());
+        let mut rr = Rng::new(mix(seed, 0x5c21));
+        w.set_responder(Some(Box::new(move |w, sock, d| {
+            let Some(idx) = socks.iter().position(|s| *s == sock) else { return false };
+            let Some(q) = Krpc::parse(&d.bytes) else { return true };
+            if q.y != b'q' {
+                return true;
+            }
+            let mut rd = vec![("id", B::bytes(&ends[idx].0))];
+            let name = q.q.clone().unwrap_or_default();
+            if let (Some(t), true) = (q.target(), matches!(name.as_str(), "find_node" | "get_peers" | "get")) {
+                let mut list: Vec<N> = knows[idx].iter().map(|&j| ends[j]).collect();
+                list.sort_by(|a, b| {
+                    let da: Vec<u8> = a.0.iter().zip(t.iter()).map(|(x, y)| x ^ y).collect();
+                    let db: Vec<u8> = b.0.iter().zip(t.iter()).map(|(x, y)| x ^ y).collect();
+                    da.cmp(&db)
+                });
+                list.truncate(per_answer);
+                if hostile_order {
+                    list.reverse();
+                    if let Some(first) = list.first().copied() {
+                        list.push(first);
+                        list.truncate(20);
+                    }
+                }
+                let _ = &mut rr;
+                rd.push(("nodes", B::Bytes(nodes_bytes(&list))));
+                if name != "find_node" {
+                    rd.push(("token", B::bytes(b"tokn")));
+                }
+                if name == "get_peers" && holders[idx] {
+                    rd.push(("values", B::List(vec![B::Bytes(addr_bytes(&SocketAddrV4::new(Ipv4Addr::new(99, 1, 1, idx as u8), 7000)))])));
+                }
+            }
+            let msg = response(&q.t, B::dict(rd), Some(&d.from), Some(&VERSION_RS6));
+            w.raw_send(sock, &msg.encode(), d.from);
+            true
+        })));
+    }
+    let boots: Vec<SocketAddrV4> = (0..1 + rng.usize(3)).map(|_| ends[rng.usize(n)].1).collect();
+    let origin_ip = if plan == 3 { Ipv4Addr::new(10, 9, 0, 9) } else { Ipv4Addr::new(90, 0, 0, 9) };
+    let origin = w.spawn(NodeSpec::client(origin_ip, &boots)).expect("origin");
+    w.block_on(origin.adht.bootstrapped(), 120 * SEC);
+    let plan_name = ["random", "clustered-last-bytes", "secure-insecure-mix", "private-clustered"][plan];
+    let case_base = json!({"class":"scripted","seed":seed.to_string(),"endpoints":n,"id_plan":plan_name,"nodes_per_answer":per_answer,"hostile_order":hostile_order});
+    let lookups = 8;
+    for li in 0..lookups {
+        r.eval();
+        let kind = *rng.pick(&[Kind::FindNode, Kind::GetClosest, Kind::GetClosest, Kind::GetPeers, Kind::GetPeers, Kind::PutImmutable]);
+        let mut target = center;
+        if kind != Kind::PutImmutable {
+            match rng.usize(4) {
+                0 => target = rng.array(),
+                1 => target[19 - rng.usize(4)] ^= 1 << rng.usize(8),
+                _ => {}
+            }
+        }
+        let Some(snap) = snapshot(&w, &origin) else {
+            r.inconclusive("snapshot hook did not answer");
+            continue;
+        };
+        if !snap.iterative_queries.is_empty() {
+            w.run_for(5 * SEC);
+        }
+        let table: Vec<N> = snap.table.nodes.iter().map(|n| (*n.0.as_bytes(), n.1)).collect();
+        let signed_table: Vec<N> = snap.signed_table.nodes.iter().map(|n| (*n.0.as_bytes(), n.1)).collect();
+        w.set_trace(TraceLevel::Full);
+        w.clear_trace();
+        let tid = Id::from(target);
+        let a = origin.adht.clone();
+        let bound = 120 * SEC;
+        let v2 = value.clone();
+        let (returned, qname): (Option<Vec<N>>, &str) = match kind {
+            Kind::FindNode => (w.block_on(a.find_node(tid), bound).map(|ns| ns.iter().map(|n| (*n.id().as_bytes(), n.address())).collect()), "find_node"),
+            Kind::GetClosest => (w.block_on(a.get_closest_nodes(tid), bound).map(|ns| ns.iter().map(|n| (*n.id().as_bytes(), n.address())).collect()), "get"),
+            Kind::GetPeers => {
+                use futures_lite::StreamExt;
+                (w.block_on(async move { a.get_peers(tid).count().await }, bound).map(|_| vec![]), "get_peers")
+            }
+            Kind::PutImmutable => (w.block_on(async move { a.put_immutable(&v2).await }, bound).map(|_| vec![]), "get"),
+        };
+        let trace = w.trace_from(0);
+        w.set_trace(TraceLevel::Off);
+        w.clear_trace();
+        let case = || {
+            let mut c = case_base.clone();
+            c["lookup_index"] = json!(li);
+            c["kind"] = json!(format!("{kind:?}"));
+            c["target"] = json!(crate::bencode::hex(&target));
+            c
+        };
+        if returned.is_none() {
+            r.violation("lookup/did-not-complete", "lookup did not complete within 120 virtual seconds in a loss-free network", case(), json!({}));
+            continue;
+        }
+        let lt = analyse(&trace, origin.addr, qname, &target);
+        judge(r, &case, kind, target, &table, &signed_table, &returned, &lt, true, mix(mix(seed, li as u64), w.order_hash()));
+        r.count("scripted_lookups");
+        if lt.answerers.iter().any(|x| lt.answerers.iter().any(|y| x.0 != y.0 && x.0[..16] == y.0[..16])) {
+            r.count("scripted_lookups_with_ids_equal_in_128_bits");
+        }
+        if lt.answerers.iter().any(secure) && lt.answerers.iter().any(|x| !secure(x)) {
+            r.count("scripted_lookups_mixing_secure_and_insecure");
+        }
+    }
+    if w.stuck() {
+        r.inconclusive("scheduler watchdog fired");
+    }
+    drop(origin);
+    w.shutdown();
+    for (thread, loc, msg) in crate::take_panics() {
+        r.violation(&format!("panic/{loc}"), &format!("thread {thread} panicked: {msg}"), case_base.clone(), json!({}));
+    }
+}
+
 pub fn run(a: &Args) -> Report {
     let mut r = Report::new("C07");
     if let Some(path) = &a.replay {
         let v: Value = serde_json::from_str(&std::fs::read_to_string(path).unwrap_or_default()).unwrap_or_default();
         let c = &v["case"];
+        if c["class"].as_str() == Some("scripted") {
+            scripted(&mut r, c["seed"].as_str().and_then(|s| s.parse().ok()).unwrap_or(1));
+            return r;
+        }
         scenario(&mut r, &Params { seed: c["seed"].as_str().and_then(|s| s.parse().ok()).unwrap_or(1), servers: c["servers"].as_u64().unwrap_or(5) as usize, plan: c["plan"].as_u64().unwrap_or(0) as usize, lookups: c["lookups"].as_u64().unwrap_or(10) as usize });
         return r;
     }
@@ -285,6 +475,11 @@ pub fn run(a: &Args) -> Report {
         let p = Params { seed: rng.u64(), servers, plan: rng.usize(4), lookups };
         super::guarded(&mut r, json!({"class":"lookup","seed":p.seed.to_string(),"servers":p.servers,"plan":p.plan,"lookups":p.lookups}), |r| scenario(r, &p));
         r.count("worlds");
+    }
+    for _ in 0..(if a.quick() { 160 } else { 3200 }) / a.nshards.max(1) {
+        let seed = rng.u64();
+        super::guarded(&mut r, json!({"class":"scripted","seed":seed.to_string()}), |r| scripted(r, seed));
+        r.count("scripted_worlds");
     }
     r
 }
